@@ -1,7 +1,7 @@
 (* Props/C07.v — property theorems only. *)
 From Coq Require Import List NArith ZArith Bool.
 From N0 Require Import Base.PyStr Base.PyVal Compare.Util Compare.Flags Compare.Match Compare.Model
-  Compare.Spec Compare.WalkLemmas Compare.VerdictProofs Compare.DefaultProofs Compare.ReflProofs Compare.SymProofs Compare.TransProofs.
+  Compare.Spec Compare.WalkLemmas Compare.VerdictProofs Compare.DefaultProofs Compare.ReflProofs Compare.SymProofs Compare.TransProofs Compare.EqImpliesProofs.
 Import ListNotations.
 
 (* direct_compare (the ordered walk): for every flag state, every pair of
@@ -126,3 +126,20 @@ Theorem C07_direct_no_difference_chains :
   compare_top fl o MDirect ck a c = Ok [].
 Proof. exact direct_no_difference_chains. Qed.
 Print Assumptions C07_direct_no_difference_chains.
+
+(* The two walks agree on "no difference": structural equality implies equality
+   up to the order of non-record list items, so where direct_compare reports
+   nothing, compare (within its guard keys_ok) reports nothing either - whatever
+   the flag states of the two calls. *)
+Theorem C07_structural_implies_mod_order :
+  forall a b, tree_eq a b = true -> eq_mod_order a b = true.
+Proof. exact tree_eq_eq_mod_order. Qed.
+Print Assumptions C07_structural_implies_mod_order.
+
+Theorem C07_direct_equal_default_equal :
+  forall fl fl' o ck ck' a b r,
+  quiet o -> ck_empty ck' -> good a -> good b -> same_kind a b -> keys_ok a b = true ->
+  compare_top fl o MDirect ck a b = Ok [] ->
+  compare_top fl' o MKeyed ck' a b = Ok r -> r = [].
+Proof. exact direct_equal_default_equal. Qed.
+Print Assumptions C07_direct_equal_default_equal.
